@@ -69,6 +69,22 @@ pub struct VerificationResult {
     pub duration: Duration,
 }
 
+/// Files sy itself keeps in the root of a destination (directory cache, checksum database,
+/// resume state). They are not part of the mirrored tree: `--delete` never plans them for
+/// deletion and the mass-deletion guard does not count them.
+pub(crate) fn is_sy_metadata(relative_path: &Path) -> bool {
+    matches!(
+        relative_path.to_str(),
+        Some(
+            ".sy-dir-cache.json"
+                | ".sy-checksums.db"
+                | ".sy-checksums.db-journal"
+                | ".sy-state.json"
+                | ".sy-state.json.tmp"
+        )
+    )
+}
+
 pub struct SyncEngine<T: Transport> {
     transport: Arc<T>,
     dry_run: bool,
@@ -530,7 +546,12 @@ impl<T: Transport + 'static> SyncEngine<T> {
             if !deletions.is_empty() && !self.force_delete {
                 let dest_file_count = scanner::Scanner::new(destination)
                     .scan()
-                    .map(|files| files.len())
+                    .map(|files| {
+                        files
+                            .iter()
+                            .filter(|f| !is_sy_metadata(&f.relative_path))
+                            .count()
+                    })
                     .unwrap_or(0);
 
                 // Check threshold: prevent mass deletion
